@@ -159,6 +159,10 @@ func c01wireCases(run *vlab.Run) []*wireSpec {
 				if k > 0 {
 					s.Ports = strings.Join(items[:k], ",")
 					s.PortsFile = "# tail of the list\n" + strings.Join(items[k:], "\n") + "\n"
+				} else {
+					// no -p at all: every range comes from the file
+					s.Ports = ""
+					s.PortsFile = "# the whole list\n" + strings.Join(items, "\n") + "\n"
 				}
 			}
 		}
@@ -197,6 +201,15 @@ func c01wireCases(run *vlab.Run) []*wireSpec {
 			s.Exclude = fmt.Sprintf("# excluded\n10.9.0.%d/30\n%s\n\n10.9.%d.0/25 # half\n", rng.Intn(256)&^3, ipS(0x0a090000|rng.Uint32()&0xff), rng.Intn(256))
 		}
 		cases = append(cases, s)
+	}
+	// every port command with its port list coming from --ports-file alone (no -p): the commands parse their
+	// options in their own RunE closures, one by one
+	for k, ck := range cmds {
+		if ck.kind != "tcp" && ck.kind != "udp" {
+			continue
+		}
+		cases = append(cases, &wireSpec{Cmd: ck.cmd, Kind: ck.kind, Link: []string{"tap", "tun"}[k%2], Mode: "subnet", Subnet: fmt.Sprintf("10.9.%d.%d/30", 100+k, 4*k),
+			PortsFile: fmt.Sprintf("# from the file only\n%d\n%d-%d\n", 1000+k, 2000+k, 2001+k), NRanges: 2})
 	}
 	// volume: far more frames than any buffer of the pipeline or the ring of the socket
 	big := []*wireSpec{
